@@ -87,7 +87,7 @@ def main():
                             'tail': outt[-300:]}
             res['suite_ok'] = not missing
             os.unlink(junit)
-        if res['confirmed_demo']:
+        if res['confirmed_demo'] and '--no-check' not in flags:
             res['checks'] = {}
             for c in checks:
                 if '--via-repo' in flags:
